@@ -123,6 +123,11 @@ def run(ctx: Ctx) -> None:
         distinct.add((r1, r2, u1, u2))
 
     t_ranges()
+    # every ordered pair of the near-equal uris, with equal and with different ranges (exhaustive)
+    for u1 in NEAR_URIS:
+        for u2 in NEAR_URIS:
+            t_ranges.hypothesis.inner_test(((0, 1), (2, 3)), ((0, 1), (2, 3)), u1, u2, False, False)
+            t_ranges.hypothesis.inner_test(((0, 1), (2, 3)), ((0, 1), (2, 4)), u1, u2, False, False)
     samples.append({"range_pair": [[[0, 1], [2, 3]], [[0, 1], [2, 3]]], "uris": ["file:///a", "file:///b"]})
 
     # 3. foreign objects
